@@ -113,7 +113,8 @@ CLAIMED['C12'] = dict(
          'differential execution of the real code with fault injection (exception and process kill). Start-up stage '
          '(after a seeded change to EventMgr.run was missed): the real run(once=True) against a kazoo fake whose '
          'watches fire on registration, the statement evaluated for the start-up synchronisation (check_existing); '
-         'EventMgr.run is part of the source-shape tie.',
+         'EventMgr.run is part of the source-shape tie. Readers holding a published entry open across the '
+         'synchronisation observe whether any update writes through the existing inode (fs.replace must rename).',
     note='Atomicity of rename(2) and absence of torn reads are the definition of the file-system model; no durability '
          'claim (fsync=False); YAML as a sorted token list; kazoo fake; placed names non-dot, manifests are mappings, '
          'single writer.',
@@ -130,7 +131,8 @@ CLAIMED['C13'] = dict(
          'expected_running), C13_sync_configures_new, C13_gone_to_cleanup_event/_sync, C13_one_link_partial '
          '(link-shape invariant). "At most one link" is refuted by the naming mismatch (C13_one_link_refuted, known '
          'finding D1) and a finished container is re-created after its cleanup while the placement exists '
-         '(C13_finished_recreated_refuted, known finding D5).',
+         '(C13_finished_recreated_refuted, known finding D5). Stage c13names: separate interpreter processes (different '
+         'hash salts, as on a real manager restart) must give the same container name to the same cache file.',
     note='Links as finite maps; unique names as (instance, file id) (C15); handler calls atomic; inotify simulated as a '
          'FIFO; configure/supervisor/runtime stubbed; supervisor reactions and delivery points are inputs; '
          'C13_gone_to_cleanup_sync assumes the cached generation\'s directory does not exist yet.',
@@ -146,9 +148,13 @@ CLAIMED['C14'] = dict(
          'C14_service_consistent; tied to the source on every run by differential execution of the real classes on '
          'real temporary directories after every operation. Pools sharing one directory (after a seeded change to '
          'VipMgr.initialize was missed): oracle-only stage with two or three real VipMgr pools over one directory '
-         '(harness/props/c14init.py); the three initialize() are part of the source-shape tie.',
+         '(harness/props/c14init.py); the three initialize() are part of the source-shape tie. Framework stage '
+         '(harness/props/c14frame.py, after a seeded change to ResourceService._on_created was missed): the real '
+         'LinuxResourceService._run (start-up replay, poll loop over real inotify) with the real '
+         'ResourceServiceClient and NetworkResourceService; the statement evaluated at every quiescent point.',
     note='exclusivity under true concurrency rests on symlink(2) EEXIST (model definition); service-level consistency '
-         'is claimed for the schedules services/_base_service.py produces (guarded); netdev/iptables are recording '
+         'is claimed for the schedules services/_base_service.py produces (guarded in the model, exercised for real by '
+         'the framework stage); netdev/iptables are recording '
          'fakes; the tie is sampled (240 / 10 000 op sequences), not a translation.',
     technique='Rocq proof (induction over op sequences) + differential correspondence (cases.v + vm_compute) + '
               'property oracle on directory listings',
@@ -166,8 +172,9 @@ CLAIMED['C16'] = dict(
          'the manifest\'s environment, prod and non-prod pools disjoint, named endpoints first in manifest order, '
          'port 0 replaced by the real port, exact error condition incl. the off-by-one of the for-else '
          '(C16P_exactly_enough_boundary); constants and shapes re-extracted every run; correspondence through the '
-         'real function with a fake socket module.',
-    note='DNS assumed stable between start and finish; ip-sets/resolver/newnet/network client are fakes; statements the '
+         'real function with a fake socket module. The network client is the real ResourceServiceClient over a real '
+         'service directory (only the daemon\'s answer is written by the harness).',
+    note='DNS assumed stable between start and finish; ip-sets/resolver/newnet are fakes, the network daemon is the harness; statements the '
          'translator classifies as irrelevant (plugin, newnet, conntrack) are trusted; ~7% of generated cases skipped '
          'as order-ambiguous (passthrough set iteration).',
     technique='Rocq proof + AST-extracted registration programs (premise templates_match by vm_compute) + '
@@ -202,7 +209,8 @@ CLAIMED['C18'] = dict(
          'populations and every crash cut: C18_lossless, C18_retrievable, C18_selection, C18_partial_batch, '
          'C18_lossless_finished, C18_selection_finished, C18_prune, C18_prune_complete, C18_download, C18_server, '
          'C18_server_terminates, C18_payload_not_archived; the model is tied to the code by differential execution of '
-         'the real cleanup functions with a fault injected at every write and snapshots read back with sqlite3.',
+         'the real cleanup functions with a fault injected at every write and snapshots read back with sqlite3 (an upload '
+         'that cannot be decompressed and opened archives nothing: snapshot-unreadable).',
     note='sqlite/zlib as an unordered list of rows; GLOB as first-field equality; ZooKeeper sequence/atomic-write '
          'semantics; batch_size >= 1; single archiver; "event" means the node name (payloads are not archived).',
     technique='Rocq proof (prefix-closed covered predicate over write lists) + per-cut differential correspondence '
